@@ -55,7 +55,7 @@ func waitOr(ch chan struct{}, d time.Duration) bool {
 }
 
 // emit an observation made outside Sess.do in the shape of a Sess op
-func (s *Sess) emitGet(b, k string, r Resp)  { s.emitOp("get", []string{hs(b), hs(k), "-"}, obsT{r: r}) }
+func (s *Sess) emitGet(b, k string, r Resp) { s.emitOp("get", []string{hs(b), hs(k), "-"}, obsT{r: r}) }
 func (s *Sess) emitPut(b, k string, body []byte, r Resp) {
 	s.emitOp("put", []string{hs(b), hs(k), hx(body), "-"}, obsT{r: r})
 }
